@@ -255,6 +255,25 @@ func footprintMain(repo string) {
 									}
 								}
 							}
+							// sort.Slice(p, ...), sort.Sort(p), slices.Sort(p) ...: an in-place permutation of the argument
+							if se, ok := s.Fun.(*ast.SelectorExpr); ok && len(s.Args) > 0 {
+								if pk, ok := se.X.(*ast.Ident); ok && (pk.Name == "sort" || pk.Name == "slices") &&
+									(strings.HasPrefix(se.Sel.Name, "Sort") || strings.HasPrefix(se.Sel.Name, "Slice") ||
+										strings.HasPrefix(se.Sel.Name, "Stable") || se.Sel.Name == "Reverse" || strings.HasPrefix(se.Sel.Name, "Float64s") ||
+										strings.HasPrefix(se.Sel.Name, "Ints") || strings.HasPrefix(se.Sel.Name, "Strings")) {
+									arg := s.Args[0]
+									if cv, ok := arg.(*ast.CallExpr); ok && len(cv.Args) == 1 {
+										arg = cv.Args[0] // sort.Sort(byOffset(stops))
+									}
+									if rid := rootIdent(arg); rid != nil {
+										if g, ok := isGlobal(rid); ok {
+											gl[g] = true
+										} else if isSliceParam(rid, fd) {
+											ent.paramStore = true
+										}
+									}
+								}
+							}
 							// a global slice used as the first argument of append may have its backing array written
 							if id, ok := s.Fun.(*ast.Ident); ok && id.Name == "append" && len(s.Args) > 0 {
 								if rid := rootIdent(s.Args[0]); rid != nil {
